@@ -17,6 +17,26 @@ datagrams through TwistedServer.datagramReceived.  That leaves unexercised:
 
 Everything else (virtual clock, blocking in handler.update, the linear log, the replay on Server.v
 through Sim.check_model) is srvsim's, unchanged: SimX / WorldX / CBClient are subclasses.
+
+Added later (all optional, the behaviour above is unchanged when they are not used):
+  * REACTOR_FRONTS "twisted-reactor" / "threaded-reactor": the thread TwistedServer / ThreadedServer build in their
+    constructor WITH its `send` left as the library set it (TwistedServer.sendPackets): the batch of built Packet
+    objects goes through `reactor.callFromThread(self.sendPacketsUnsafe, batch)`.  `mpgameserver.twisted.reactor`
+    is a StubReactor whose callFromThread QUEUES the call (and photographs the batch at the hand-over: header
+    fields, plaintext, key and destination of every packet as they are when the server thread lets go of them);
+    the harness thread plays the reactor thread and runs the queued calls, oldest first, when it decides the
+    reactor gets a turn (WorldX.reactor_busy: the reactor also serves the TCP/HTTP routes and may lag by ticks).
+    Like the reactor, it logs a call that raises and goes on with the next call.  `tw.transport` is a
+    StubTransport: write() raises OSError for destinations the OS refuses (REFUSED_BY_OS, measured on this
+    kernel the way srvsim.os_refuses_port0 does) exactly as twisted's udp.Port.write re-raises them, everything
+    else is recorded in SimX.written = dicts {data, addr, snap (the photograph), step_built, step_written}.
+    These fronts are implementation-only (Server.v describes UdpServerThread.send's per-packet guard, not the
+    reactor hand-over): check_model is not meaningful for them.
+  * SimX(hold_probe=True) on the other fronts: UdpServerThread.send is wrapped by the same photographing
+    hand-over (an instance attribute, as TwistedServer itself installs one), so `written` is filled there too.
+  * SimX(setter_order=...): the order in which configure="between" calls the four ServerContext setters.
+  * SimX.cb_policy(sim, obj, cbid, ok) -> (actions, raises): what a user send callback DOES when the library calls
+    it (actions as in do_action, issued from inside the callback; raises -> the callback raises afterwards).
 """
 import threading, types, logging, contextlib, socket as _socket
 from harness import connsim as S
@@ -25,6 +45,109 @@ from harness import srvsim as V
 T = S.TICKS
 DEFAULT_CFG = (5 * T, 2 * T, 1536, T)          # ServerContext's defaults (5 s, 2 s, 0.1 s, 1 s), in ticks
 FRONTS = ("twisted", "twisted-own", "threaded", "udpserver")
+REACTOR_FRONTS = ("twisted-reactor", "threaded-reactor")
+SETTERS = ("setConnectionTimeout", "setTempConnectionTimeout", "setKeepAliveInterval", "setMessageTimeout")
+UNANSWERABLE = [("10.9.9.9", 0), ("255.255.255.255", 4000), ("240.0.0.1", 4000), ("0.0.0.0", 0)]
+_REFUSED = {}
+
+
+def os_refuses(addr):
+    """does this kernel refuse sendto(..., addr) on a plain UDP socket?  (the real twisted UDP port re-raises every
+    OSError of sendto except EINTR / EMSGSIZE / ECONNREFUSED)"""
+    if addr not in _REFUSED:
+        s = _socket.socket(_socket.AF_INET, _socket.SOCK_DGRAM)
+        try:
+            s.sendto(b"x", addr)
+            _REFUSED[addr] = False
+        except OSError as e:
+            import errno
+            _REFUSED[addr] = e.errno not in (errno.EINTR, errno.EMSGSIZE, errno.ECONNREFUSED)
+        finally:
+            s.close()
+    return _REFUSED[addr]
+
+
+def refused_by_os(addr):
+    """the rule of the stub transport: port 0 always (srvsim.MockSock's rule, measured by os_refuses_port0), plus the
+    limited broadcast address and class E when this kernel refuses them"""
+    if addr[1] == 0:
+        return True
+    ip = addr[0]
+    if ip == "255.255.255.255":
+        return os_refuses(("255.255.255.255", 4000))
+    head = ip.split(".")[0]
+    if head.isdigit() and int(head) >= 240:
+        return os_refuses(("240.0.0.1", 4000))
+    return False
+
+
+def photograph(batch):
+    """the packets of one send batch as they are at the hand-over; hdr in connsim.pack_header's layout
+    [to_server, ctime, seq, ack, type, len, count, ackbits]"""
+    out = []
+    for pkt, key, addr in batch:
+        h = pkt.hdr
+        out.append({"hdr": [0 if h.isServer else 1, int(h.ctime), int(h.seq), int(h.ack), h.pkt_type.value, int(h.length),
+                            int(h.count), int(h.ack_bits)],
+                    "plain": bytes(pkt.msg), "key": None if key is None else bytes(key), "addr": addr})
+    return out
+
+
+class StubReactor:
+    """twisted.internet.reactor as far as mpgameserver.twisted uses it from the server thread"""
+
+    def __init__(self, sim):
+        self.sim = sim
+        self.queue = []
+        self.errors = []
+        self.inline = False
+        self.calls = 0
+
+    def callFromThread(self, f, *a, **k):
+        self.calls += 1
+        item = {"f": f, "a": a, "k": k, "step": len(self.sim.steps), "snap": None, "i": 0}
+        if a and isinstance(a[0], (list, tuple)) and getattr(f, "__name__", "") == "sendPacketsUnsafe":
+            try:
+                item["snap"] = photograph(a[0])
+            except Exception as e:      # noqa
+                self.sim.internal.append("photograph: %r" % (e,))
+        if self.inline:
+            self.run_item(item)
+        else:
+            self.queue.append(item)
+
+    def run_item(self, item):
+        self.sim.cur_item = item
+        try:
+            item["f"](*item["a"], **item["k"])
+        except Exception as e:      # noqa  (the reactor logs it and serves the next call)
+            self.errors.append((len(self.sim.steps), repr(e)[:120]))
+        finally:
+            self.sim.cur_item = None
+
+    def turn(self, n=None):
+        """the reactor thread gets a turn: the n oldest queued calls (all of them when n is None)"""
+        k = len(self.queue) if n is None else min(n, len(self.queue))
+        for _ in range(k):
+            self.run_item(self.queue.pop(0))
+        return k
+
+    def stop(self):
+        pass
+
+    def run(self, *a, **k):
+        pass
+
+    def listenUDP(self, *a, **k):
+        pass
+
+
+class StubTransport:
+    def __init__(self, sim):
+        self.sim = sim
+
+    def write(self, data, addr=None):
+        self.sim.on_write(data, addr)
 
 
 @contextlib.contextmanager
@@ -148,14 +271,22 @@ class SimX(V.Sim):
     `api_sends`: handler actions with retry -1 go through ServerClientConnection.send_guaranteed."""
 
     def __init__(self, run, cfg=DEFAULT_CFG, blocklist=(), mtu=1500, policy=None, full=True, front="twisted",
-                 configure="before", api_sends=False, sentinel_first=False):
-        if front not in FRONTS:
+                 configure="before", api_sends=False, sentinel_first=False, setter_order=None, hold_probe=False,
+                 cb_policy=None):
+        if front not in FRONTS + REACTOR_FRONTS:
             raise ValueError(front)
         self.front, self.configure, self.api_sends = front, configure, api_sends
         self.sentinel_first = sentinel_first
         self.runner = None
         self.server = None
         self._saved_socket = None
+        self.reactor = None
+        self._saved_reactor = None
+        self.cur_item = None
+        self.written = []
+        self.refused_writes = []
+        self.cb_policy = cb_policy
+        self.cb_calls = []
         first_cfg = tuple(cfg) if configure == "before" else DEFAULT_CFG
         first_bl = tuple(blocklist) if configure == "before" else ()
         super().__init__(run, cfg=first_cfg, blocklist=first_bl, mtu=mtu, policy=policy, full=full, gate=front)
@@ -172,12 +303,40 @@ class SimX(V.Sim):
             self.server = self.SV._UdpServer(self.ctxt, ("0.0.0.0", 1474))
             self.tw = None
             self.thread = None              # built by _UdpServer.run
+        elif front in REACTOR_FRONTS:
+            import mpgameserver.twisted as TW
+            if front == "twisted-reactor":
+                self.tw = TwistedServer(self.ctxt, ("0.0.0.0", 1474), install_signals=False)
+            else:
+                self.outer = ThreadedServer(self.ctxt, ("0.0.0.0", 1474))
+                self.tw = self.outer.server
+            self.thread = self.tw.thread            # its `send` stays what the library made it
+            self.sock = None
+            self.reactor = StubReactor(self)
+            self._saved_reactor = (TW, TW.reactor)
+            TW.reactor = self.reactor
+            self.tw.transport = StubTransport(self)
+        if hold_probe and front in ("twisted", "twisted-own", "threaded"):
+            inner = self.thread.send
+
+            def probed_send(seq, inner=inner):
+                item = {"snap": None, "i": 0, "step": len(self.steps)}
+                try:
+                    item["snap"] = photograph(seq)
+                except Exception as e:      # noqa
+                    self.internal.append("photograph: %r" % (e,))
+                self.cur_item = item
+                try:
+                    return inner(seq)
+                finally:
+                    self.cur_item = None
+            self.thread.send = probed_send
         if configure == "between":
             c = self.ctxt
-            c.setConnectionTimeout(cfg[0] / T)
-            c.setTempConnectionTimeout(cfg[1] / T)
-            c.setKeepAliveInterval(cfg[2] / T)
-            c.setMessageTimeout(cfg[3] / T)
+            vals = {"setConnectionTimeout": cfg[0] / T, "setTempConnectionTimeout": cfg[1] / T,
+                    "setKeepAliveInterval": cfg[2] / T, "setMessageTimeout": cfg[3] / T}
+            for name in (setter_order or SETTERS):
+                getattr(c, name)(vals[name])
             c.setBlockList(set(blocklist))
             self.cfg = list(cfg)
             self.blocklist = list(blocklist)
@@ -188,6 +347,59 @@ class SimX(V.Sim):
         thread.sock = self.sock
         thread.__dict__.pop("send", None)
         self.thread = thread
+
+    # -- the hand-over of built packets
+    def _pair(self, data, addr):
+        """the photograph of the packet a datagram was made of: the i-th write of a batch is its i-th packet"""
+        item = self.cur_item
+        if item is None or item.get("snap") is None:
+            return None, None
+        i = item["i"]
+        item["i"] = i + 1
+        if i >= len(item["snap"]):
+            return None, item["step"]
+        return item["snap"][i], item["step"]
+
+    def on_write(self, data, addr):
+        """StubTransport.write"""
+        snap, built = self._pair(data, addr)
+        if refused_by_os(addr):
+            self.refused_writes.append((len(self.steps), addr))
+            raise OSError(22, "Invalid argument")
+        self.written.append({"data": bytes(data), "addr": addr, "snap": snap, "step_built": built, "step_written": len(self.steps)})
+        self.on_sendto(bytes(data), addr)
+
+    def on_sendto(self, data, addr):
+        if self.cur_item is not None and self.reactor is None:
+            snap, built = self._pair(data, addr)
+            self.written.append({"data": bytes(data), "addr": addr, "snap": snap, "step_built": built, "step_written": len(self.steps)})
+        super().on_sendto(data, addr)
+
+    def reactor_turn(self, n=None):
+        if self.reactor is not None:
+            return self.reactor.turn(n)
+        return 0
+
+    def user_cb(self, obj, cbid):
+        f = super().user_cb(obj, cbid)
+        if f is None or self.cb_policy is None:
+            return f
+
+        def g(ok, _f=f, _o=obj, _id=cbid):
+            _f(ok)
+            acts, raises = self.cb_policy(self, _o, _id, ok)
+            self.cb_calls.append((len(self.steps), self.cid(_o), _id, 1 if ok else 0, [a[0] for a in acts], 1 if raises else 0))
+            for a in acts:
+                self.do_action(a)
+            if raises:
+                raise V.HandlerRaised("scripted callback")
+        g._verif_id = cbid
+        return g
+
+    def finish(self, t):
+        super().finish(t)
+        if self.reactor is not None:
+            self.reactor.turn()         # the reactor outlives the server thread: what is queued still goes out
 
     def _excepthook(self, args):
         if args.thread is self.thread or (self.runner is not None and args.thread is self.runner):
@@ -285,6 +497,8 @@ class SimX(V.Sim):
             finally:
                 if self._saved_socket is not None:
                     self.SV.socket = self._saved_socket
+                if self._saved_reactor is not None:
+                    self._saved_reactor[0].reactor = self._saved_reactor[1]
 
 
 class CBClient(V.HClient):
@@ -310,10 +524,13 @@ class WorldX(V.World):
     down(addr, raw) -> list of datagrams that reach the client instead (server -> client)"""
 
     def __init__(self, run, rng, cfg=DEFAULT_CFG, blocklist=(), mtu=1500, policy=None, full=True, t0=100 * T,
-                 front="twisted", configure="before", api_sends=False, before_start=None, sentinel_first=False):
+                 front="twisted", configure="before", api_sends=False, before_start=None, sentinel_first=False,
+                 setter_order=None, hold_probe=False, cb_policy=None, reactor_busy=None):
         self.rng = rng
+        self.reactor_busy = reactor_busy        # fn(world) -> True: the reactor thread gets no turn after this tick
         self.sim = SimX(run, cfg=cfg, blocklist=blocklist, mtu=mtu, policy=policy, full=full, front=front,
-                        configure=configure, api_sends=api_sends, sentinel_first=sentinel_first)
+                        configure=configure, api_sends=api_sends, sentinel_first=sentinel_first,
+                        setter_order=setter_order, hold_probe=hold_probe, cb_policy=cb_policy)
         self.t = t0
         self.clients = []
         self.by_addr = {}
@@ -361,6 +578,8 @@ class WorldX(V.World):
         n0 = len(self.sim.sends)
         self.batches.append(batch)
         alive = self.sim.advance(self.t, batch, rand)
+        if self.sim.reactor is not None and not (self.reactor_busy is not None and self.reactor_busy(self)):
+            self.sim.reactor_turn()
         for (k, addr, data) in self.sim.sends[n0:]:
             rec = self.by_addr.get(addr)
             if rec is not None and rec["ticking"]:
